@@ -75,11 +75,11 @@ def body_names(sel: int) -> bool:
         cev = oracle_evtgen(ev)
         if cev.startswith("ChargeConj("):
             # documented behaviour: conjugate unknown -> marker (an EvtGen->PDG lookup of the marker cannot succeed)
-            return got.startswith("ChargeConj(") or fail(f"{n!r}: no known conjugate but got {got!r}")
+            return got == f"ChargeConj({n})" or fail(f"{n!r}: no known conjugate, must come back as ChargeConj({n}) but got {got!r}")
         try:
             exp = EvtGen2PDGNameMap[cev]
         except Exception:
-            return got.startswith("ChargeConj(") or fail(f"{n!r}: conjugate {cev!r} has no PDG name but got {got!r}")
+            return got == f"ChargeConj({n})" or fail(f"{n!r}: conjugate {cev!r} has no PDG name but got {got!r}")
         if got != exp:
             return fail(f"charge_conjugate_name({n!r}, pdg_name=True) = {got!r}, expected {exp!r}")
         back = charge_conjugate_name(got, pdg_name=True)
